@@ -137,7 +137,7 @@ def d2_holder_only(ctx):
                           key="D2:store-guarded-by-found:%s" % s["p"]["proj"][-1].get("n"))
     # return value is `found`
     rvs = [pa.fa.val_local(0, (r, len(f.blocks[r]["stmts"]))) for r in ctx.cfg(f).returns]
-    ok = all(is_call(v, name_contains="is_some") and v[2][0] == rv for v in rvs) and rvs
+    ok = rvs and pa.equivalent(pa.ret_true(), FOUND)  # any control shape: returns true exactly when the packet was held
     ctx.chk.ob("D2", "handle_nak reports whether it charged", bool(ok), "returns %s" % [show(v, f.names)[:100] for v in rvs], key="D2:returns-found")
 
 
